@@ -317,7 +317,7 @@ def gen_step(rng, snap, prof):
             return c_update_ref(b"refs/heads/" + rng.choice(st.branches), rng.choice(st.commits).hex())
         return gen_hostile(rng, st)
     if kind == "log":
-        return c_log(rng.choice([None, None, 0, 1, 2, 3, 10, 60]))
+        return c_log(rng.choice([None, None, 0, 1, 2, 3, 10, 60, 60, 2 ** 31, 2 ** 45 + 1, 2 ** 63 - 1]))
     if kind == "reflog":
         return c_reflog()
     if kind == "cat-file":
